@@ -45,6 +45,7 @@ def run(idx: ProgramIndex, rep: Report, tier: str):
     sibling_keyword_split(idx, rep)
     full_noise_used(idx, rep)
     call_time_noise_forwarded(idx, rep)
+    positional_contract(idx, rep)
 
 
 def marginals(idx: ProgramIndex, rep: Report):
@@ -640,3 +641,41 @@ def call_time_noise_forwarded(idx: ProgramIndex, rep: Report):
                     "%d link(s), each forwards **%s" % (len(links), kw) if not dropped else
                     ", ".join("`%s` (line %d)" % (" ".join(src(c).split())[:60], c.lineno) for c in dropped) + " does not pass **%s on: a `noise=` given to this entry point never reaches the noise model, which then uses the stored fixed noise (or, for another event size, no fixed noise at all) while the sibling entry points use the call-time noise" % kw, {})
     rep.floor("C12-8", "links on the call-time-noise route", n, 6)
+
+
+# ---- C12-9 ---------------------------------------------------------------------------------------------------------
+def positional_contract(idx: ProgramIndex, rep: Report):
+    """The likelihood methods pass the caller's positional likelihood parameters on as `*params` (`_shaped_noise_covar(shape, *params,
+    **kwargs)`, `forward(samples, *params, **kwargs)` ...).  An override that has more positional parameters in front of its own `*params`
+    than the overridden method binds the caller's first parameters (typically the inputs x) to them."""
+    rep.rule("C12-9", "an override in the likelihood classes takes no more positional parameters in front of *params than the method it overrides: the callers of the base contract pass the likelihood's positional parameters there")
+    roots = []
+    for nm in ("_Likelihood", "Noise"):
+        try:
+            roots.append(idx.find_class(nm))
+        except AnalysisError:
+            pass
+    n = 0
+    seen = set()
+    for root in roots:
+        for cls in sorted([root] + list(idx.subclasses(root)), key=lambda c: c.qualname):
+            if cls in seen:
+                continue
+            seen.add(cls)
+            for name, m in sorted(cls.methods.items()):
+                pm = cls.lookup(name, after=cls)
+                if pm is None or pm.node.args.vararg is None or name.startswith("__"):
+                    continue
+                body = body_without_docstring(pm.node)
+                if pm.cls is not None and pm.cls.name == "Module":
+                    continue  # torch-style abstract forward(*inputs)
+                n += 1
+                own = [a.arg for a in m.node.args.posonlyargs + m.node.args.args]
+                base = [a.arg for a in pm.node.args.posonlyargs + pm.node.args.args]
+                extra = own[len(base):]
+                ok = not extra
+                rep.add("C12-9", "%s:%s.%s[positional parameters]" % (cls.module.name, cls.qualname, name), m.where, ok,
+                        "as many positional parameters as %s.%s" % (pm.cls.qualname if pm.cls else "?", name) if ok else
+                        "%s.%s is called as %s(%s, *params, **kwargs) by the code written against %s; this override has the positional parameter(s) %s in front of *params, so the first positional likelihood parameters of the caller (the inputs x of lik(f, x) / expected_log_prob(y, dist, x)) are bound to them"
+                        % (cls.qualname, name, name, ", ".join(base[1:]), pm.cls.qualname if pm.cls else "?", ", ".join(extra)), {})
+    rep.floor("C12-9", "overrides of *params methods in the likelihood classes", n, 15)
